@@ -21,7 +21,20 @@ import (
 func concProgram(t jsonline.Template, g int, iters int) string {
 	var sb strings.Builder
 	for i := 0; i < iters; i++ {
-		switch (g + i) % 7 {
+		switch (g + i) % 8 {
+		case 7:
+			// in-place imports through dotted paths into what the template declared one and two levels down
+			// (refused today: a declared sub-row is not navigable), and path reads, on a row of one's own
+			r := t.CreateRowEmpty()
+			e1 := r.ImportAtPath("hh.o.n", g*100000+i)
+			e2 := r.ImportAtPath("s.zz", g)
+			e3 := r.ImportAtPath("hh.x", fmt.Sprintf("g%d", g))
+			e4 := r.ImportAtPath("hh.o.fresh", i)
+			v1, ok1 := r.GetAtPath("hh.o.n")
+			v2, ok2 := r.GetAtPath("s.aa")
+			found, ok5 := r.FindValuesAtPath("hh.o.n")
+			sb.WriteString(fmt.Sprintf("%v %v %v %v %v %v %v %v %d %v ", e1 != nil, e2 != nil, e3 != nil, e4 != nil, v1, ok1, v2, ok2, len(found), ok5))
+			sb.WriteString(r.String())
 		case 0:
 			sb.WriteString(t.CreateRowEmpty().String())
 		case 1:
@@ -90,7 +103,8 @@ func genC20(cw *caseWriter, seed uint64, tier string) {
 	for round := 0; round < rounds; round++ {
 		cols := []colDesc{{name: "a", format: "numeric", ty: "int"}, {name: "bin", format: "binary", ty: "bytes"},
 			{name: "s", isSub: true, sub: []colDesc{{name: "zz", format: "auto", ty: "none"}, {name: "aa", format: "string", ty: "none"}}},
-			{name: "d", format: "datetime", ty: "none"}, {name: "h", format: "hidden", ty: "none"}, {name: "dd", format: "date", ty: "none"}}
+			{name: "d", format: "datetime", ty: "none"}, {name: "h", format: "hidden", ty: "none"}, {name: "dd", format: "date", ty: "none"},
+			{name: "hh", isSub: true, sub: []colDesc{{name: "o", isSub: true, sub: []colDesc{{name: "n", format: "auto", ty: "none"}, {name: "m", format: "string", ty: "none"}}}, {name: "x", format: "auto", ty: "none"}}}}
 		for _, f := range fmtNames {
 			if r.chance(1, 2) {
 				cols = append(cols, colDesc{name: "c_" + f, format: f, ty: pick(r, tyNames)})
